@@ -10,7 +10,7 @@ import YaegiVerif.Generated.C08
      facts                          → the extracted table and facts, as the driver sees them
 
    PROG = (STMT …)   STMT = (set d v) | (add d a b) | (addc d a c) | (jlt a b t) | (jmp t) | (send ch src)
-                          | (recv d ok ch) | (close ch) | (select CASE …) | (print s) | (halt)
+                          | (recv d ok ch) | (range d ch exit) | (close ch) | (select CASE …) | (print s) | (halt)
    CASE = (recv ch slot target) | (send ch slot target) | (dflt target)
    ACTS = ((SLOTS) (CHANS)) …       HEAP = ((cap closed v …) …)
    result = per activation `<d|b|r>:<v,v,…>` joined by `|`, then `~` and the channel buffers `v,v;v,…`
@@ -34,6 +34,7 @@ def parseStmt : Sexp → Option Stmt
   | .list [.atom "jmp", t] => do some (.jmp (← t.nat?))
   | .list [.atom "send", c, s] => do some (.send (← c.nat?) (← s.nat?))
   | .list [.atom "recv", d, o, c] => do some (.recv (← d.nat?) (← o.nat?) (← c.nat?))
+  | .list [.atom "range", d, c, t] => do some (.range (← d.nat?) (← c.nat?) (← t.nat?))
   | .list [.atom "close", c] => do some (.close (← c.nat?))
   | .list (.atom "select" :: cs) => do some (.select (← cs.mapM parseCase))
   | .list [.atom "print", s] => do some (.print (← s.nat?))
